@@ -45,6 +45,27 @@ def use_repo() -> None:
         raise RuntimeError(f"aiomysensors imported from {real}, expected under {src}")
 
 
+def sleep_buffer(gateway):
+    """The gateway's sleep buffer, located by WHAT IT IS — the one `MessageBuffer` (public class of gateway.py with the
+    public fields `set_messages` / `internal_messages`) that the gateway object holds and hands to its handlers — not
+    by the name of the private attribute holding it.  Renaming a private attribute is not a change of behaviour
+    (DESIGN 13, false alarm 12: `gateway._message_buffer` renamed made twelve checks crash)."""
+    from aiomysensors.gateway import MessageBuffer  # noqa: PLC0415
+
+    names = list(getattr(gateway, "__dict__", ()))
+    for cls in type(gateway).__mro__:
+        slots = cls.__dict__.get("__slots__", ())
+        names.extend([slots] if isinstance(slots, str) else slots)
+    found = []
+    for n in names:
+        v = getattr(gateway, n, None)
+        if isinstance(v, MessageBuffer) and not any(v is w for w in found):
+            found.append(v)
+    if len(found) != 1:
+        raise RuntimeError(f"the gateway object holds {len(found)} MessageBuffer objects; expected exactly one")
+    return found[0]
+
+
 # ---- string transport encoding ---------------------------------------------------------------
 
 
